@@ -106,3 +106,33 @@ Theorem session_key_is_hmac priv mine remote :
   hmac (sha256 (be32 (modexp (remote mod kx_prime) priv kx_prime)))
        (be32 (Z.min mine remote) ++ be32 (Z.max mine remote)).
 Proof. reflexivity. Qed.
+
+(* ---- the newest accepted handshake of a peer decides the key held for it ---- *)
+Lemma km_current_filter m peer q : q <> peer ->
+  km_current (filter (fun e => negb (fst e =? peer)) m) q = km_current m q.
+Proof.
+  intros Hq. induction m as [|[p k] r IH]; cbn [filter km_current fst]; [reflexivity|].
+  destruct (p =? peer) eqn:E; cbn [negb km_current].
+  - assert ((p =? q) = false) by lia. rewrite H. exact IH.
+  - destruct (p =? q); [reflexivity | exact IH].
+Qed.
+
+Theorem km_register_current m peer key :
+  km_current (km_register m peer key) peer = Some key /\
+  forall q, q <> peer -> km_current (km_register m peer key) q = km_current m q.
+Proof.
+  unfold km_register. cbn [km_current]. rewrite Z.eqb_refl. split; [reflexivity|].
+  intros q Hq. assert ((peer =? q) = false) by lia. rewrite H. apply km_current_filter. exact Hq.
+Qed.
+
+Theorem latest_handshake_wins priv hs peer pub :
+  km_current (accept_all priv (hs ++ [(peer, pub)])) peer = Some (session_key priv (compute_public priv) pub).
+Proof.
+  unfold accept_all. rewrite fold_left_app. cbn [fold_left fst snd]. apply km_register_current.
+Qed.
+
+(* so a peer that re-handshakes under the same id with a new scalar and the node hold the same key again *)
+Theorem rehandshake_same_key a hs peer b2 : 0 <= a < two32 -> 0 <= b2 < two32 ->
+  km_current (accept_all a (hs ++ [(peer, compute_public b2)])) peer =
+  Some (session_key b2 (compute_public b2) (compute_public a)).
+Proof. intros Ha Hb. rewrite latest_handshake_wins. f_equal. apply same_session_key; assumption. Qed.
